@@ -255,6 +255,10 @@ H_mutation(o, e) ==
       v1 == IF ~legit THEN {V("C01", "illegitimate_" \o e.kind \o (IF foreign THEN "_of_foreign_record" ELSE "_of_own_record") \o how, w, e)} ELSE {}
       v1b == IF ~legit /\ e.kind = "update" /\ foreign /\ p.writer # "outside"
              THEN {V("C10", "replacement_without_strictly_higher_priority", w, e)} ELSE {}
+      \* C13: leadership is not taken from a live record an outside party wrote other than by legitimate preemption (the
+      \* priority comparison holds against the very version that is overwritten)
+      v1c == IF ~legit /\ e.kind = "update" /\ foreign /\ p.writer = "outside"
+             THEN {V("C13", "outside_record_overwritten_without_legitimate_preemption", w, e)} ELSE {}
       v2 == IF k # x.cfg.group THEN {V("C01", "mutation_of_foreign_group", w, e)} ELSE {}
       \* C10 compares a candidate's priority with "the priority stored in the record": every version an instance writes carries
       \* the priority of its configuration (a refresh that publishes another one invites an illegitimate preemption: C07)
@@ -267,7 +271,7 @@ H_mutation(o, e) ==
             THEN {V("C05", "refresh_changes_token_or_identity", w, e)} ELSE {}
       n == IF e.kind = "delete" THEN Tomb(e, w) ELSE MkRec(e, w)
       r1 == RecChanged(o, k, n, w, (IF e.kind = "delete" THEN "deleted" ELSE "replaced"), e)
-  IN R(r1.o, r1.v \cup v1 \cup v1b \cup v2 \cup v3 \cup v4 \cup vp)
+  IN R(r1.o, r1.v \cup v1 \cup v1b \cup v1c \cup v2 \cup v3 \cup v4 \cup vp)
 
 H_op_apply(o, e) ==
   LET o0 == IF e.lost THEN [o EXCEPT !.faulty = TRUE, !.hard = TRUE, !.I[e.i].cut = TRUE] ELSE o
@@ -540,6 +544,12 @@ H_snap(o, e) ==
 \* terminal events
 Blame(o) == (IF o.stopSeen THEN {"C09"} ELSE {}) \cup (IF o.connEv THEN {"C11"} ELSE {})
             \cup (IF o.outside \/ o.badval THEN {"C13"} ELSE {})
+            \* ... in the middle of filling a vacancy: a started, non-stopped instance that does not claim leadership while its
+            \* group's record is vacant or is the one it has just written (C06: one of those instances becomes leader)
+            \cup (IF \E i \in Ids : LET x == o.I[i] r == o.rec[x.cfg.group] IN
+                            x.present /\ x.started /\ ~x.halted /\ ~x.claim
+                            /\ (o.vacSince[x.cfg.group] >= 0 \/ (r.live /\ r.writer = i /\ r.id = i))
+                  THEN {"C06"} ELSE {})
 Crash(o, e, what) ==
   LET ps == IF Blame(o) = {} THEN {"C09", "C13"} ELSE Blame(o) IN
   R([o EXCEPT !.ended = TRUE], {V(p, what, "env", e) : p \in ps})
